@@ -28,3 +28,26 @@ Definition hc_agrees (c : hcase) : bool :=
   obs_agree m ml (hc_obs c).
 
 Definition repo_mismatches (l : list hcase) : list nat := map hc_idx (filter (fun c => negb (hc_agrees c)) l).
+
+(* ---- C12: crash images *)
+From Verif Require Import RepoProofs RepoProps.
+Record ccase := mk_cc {
+  cc_idx : nat; cc_old : option N; cc_new : N; cc_phase : phase;
+  cc_loaded : bool;          (* after restart from the image: is the location treated as loaded? *)
+  cc_content : option N;     (* and which list answers (by id), if any *)
+  cc_temps : nat }.          (* temporary artefacts left after start-up *)
+
+Definition mk_list (id : N) : crl * option N :=
+  ({| l_issuer := 1; l_serials := [Z.of_N id]; l_signer := 1; l_sig_ok := true; l_parse_ok := true |}, Some 1%N).
+Definition list_id (v : crl * option N) : N := match l_serials (fst v) with z :: _ => Z.to_N z | [] => 0 end.
+
+Definition cc_agrees (c : ccase) : bool :=
+  let '(l, temps) := after_restart (crash_image (option_map mk_list (cc_old c)) (mk_list (cc_new c)) (cc_phase c)) in
+  Nat.eqb temps (cc_temps c)
+  && Bool.eqb (match l with Some _ => true | None => false end) (cc_loaded c)
+  && match l, cc_content c with
+     | Some v, Some i => N.eqb (list_id v) i
+     | None, None => true
+     | _, _ => false
+     end.
+Definition crash_mismatches (l : list ccase) : list nat := map cc_idx (filter (fun c => negb (cc_agrees c)) l).
